@@ -71,57 +71,52 @@ Theorem C09_drop_suppresses_connect : forall cf ps r c l l1 rx,
 Proof. exact drop_before_connect. Qed.
 Print Assumptions C09_drop_suppresses_connect.
 
-(* ... in handle_client_request it suppresses the forwarding of that request: first request ... *)
-Theorem C09_drop_suppresses_first : forall cf ps connected r1 l2 l3 rx,
-  chain HCR ARequest handle_client_request ps r1 l2 = (l3, Dropped rx) ->
-  after_connect cf ps connected r1 l2 = (l3, Continue (mkState rx connected None)).
-Proof. exact drop_first_request. Qed.
-Print Assumptions C09_drop_suppresses_first.
-
-(* ... and later requests. *)
-Theorem C09_drop_suppresses_later : forall cf ps st pr l l1 rx,
-  chain HCR ARequest handle_client_request ps pr l = (l1, Dropped rx) ->
-  run_later cf ps st pr l = (l1, Continue (mkState (st_request st) true (Some rx)))
-  /\ upstream_queue l1 = upstream_queue l.
-Proof. exact drop_later_request. Qed.
-Print Assumptions C09_drop_suppresses_later.
+(* ... in handle_client_request it suppresses the forwarding of that request: on the first request
+   (nothing more is logged: no upstream queue entry, no tunnel response) and on later requests. *)
+Theorem C09_drop_suppresses_forwarding :
+  (forall cf ps connected r1 l2 l3 rx,
+     chain HCR ARequest handle_client_request ps r1 l2 = (l3, Dropped rx) ->
+     after_connect cf ps connected r1 l2 = (l3, Continue (mkState rx connected None)))
+  /\ (forall cf ps st pr l l1 rx,
+     chain HCR ARequest handle_client_request ps pr l = (l1, Dropped rx) ->
+     run_later cf ps st pr l = (l1, Continue (mkState (st_request st) true (Some rx)))
+     /\ upstream_queue l1 = upstream_queue l).
+Proof. exact (conj drop_first_request drop_later_request). Qed.
+Print Assumptions C09_drop_suppresses_forwarding.
 
 (* A plugin rejecting in before_upstream_connection: the log is the calls up to that plugin, then
    exactly its response (if it chose one), then the teardown; no connect attempt, nothing queued for
    upstream, and nothing that follows in the history has any effect before shutdown. *)
-Theorem C09_reject_exact : forall cf ps r c rest l l1 rx resp,
-  chain BUC ARequest before_upstream_connection ps r l = (l1, Rejected rx resp) ->
-  run_steps cf ps None false (SFirst r c :: rest) l = (handle_data_end (FReject resp) l1, Some (mkState rx false None))
-  /\ connect_log l1 = connect_log l /\ upstream_queue l1 = upstream_queue l /\ client_queue l1 = client_queue l.
-Proof. exact reject_before_connect. Qed.
+Theorem C09_reject_exact :
+  (forall cf ps r c rest l l1 rx resp,
+     chain BUC ARequest before_upstream_connection ps r l = (l1, Rejected rx resp) ->
+     run_steps cf ps None false (SFirst r c :: rest) l = (handle_data_end (FReject resp) l1, Some (mkState rx false None))
+     /\ connect_log l1 = connect_log l /\ upstream_queue l1 = upstream_queue l /\ client_queue l1 = client_queue l)
+  /\ (forall b l, b <> [] -> handle_data_end (FReject (Some b)) l = l ++ [QueueClient b; Teardown]).
+Proof. exact (conj reject_before_connect handle_data_end_reject). Qed.
 Print Assumptions C09_reject_exact.
-
-Theorem C09_reject_response : forall b l, b <> [] -> handle_data_end (FReject (Some b)) l = l ++ [QueueClient b; Teardown].
-Proof. exact handle_data_end_reject. Qed.
-Print Assumptions C09_reject_response.
 
 (* Rejecting in handle_client_request: same response and teardown, no request byte is queued for
    upstream — but on the first request the upstream connection has already been opened (the code
    connects between the two chains); on later requests the connection exists anyway. *)
-Theorem C09_reject_exact_first_hcr : forall cf ps connected r1 l2 l3 rx resp,
-  chain HCR ARequest handle_client_request ps r1 l2 = (l3, Rejected rx resp) ->
-  after_connect cf ps connected r1 l2 = (l3, Failed (mkState rx connected None) (FReject resp))
-  /\ upstream_queue l3 = upstream_queue l2 /\ client_queue l3 = client_queue l2.
-Proof. exact reject_first_request. Qed.
-Print Assumptions C09_reject_exact_first_hcr.
-
-Theorem C09_reject_exact_later : forall cf ps st pr l l1 rx resp,
-  chain HCR ARequest handle_client_request ps pr l = (l1, Rejected rx resp) ->
-  run_later cf ps st pr l = (l1, Failed (mkState (st_request st) true (Some rx)) (FReject resp))
-  /\ upstream_queue l1 = upstream_queue l /\ client_queue l1 = client_queue l.
-Proof. exact reject_later_request. Qed.
-Print Assumptions C09_reject_exact_later.
+Theorem C09_reject_exact_hcr :
+  (forall cf ps connected r1 l2 l3 rx resp,
+     chain HCR ARequest handle_client_request ps r1 l2 = (l3, Rejected rx resp) ->
+     after_connect cf ps connected r1 l2 = (l3, Failed (mkState rx connected None) (FReject resp))
+     /\ upstream_queue l3 = upstream_queue l2 /\ client_queue l3 = client_queue l2)
+  /\ (forall cf ps st pr l l1 rx resp,
+     chain HCR ARequest handle_client_request ps pr l = (l1, Rejected rx resp) ->
+     run_later cf ps st pr l = (l1, Failed (mkState (st_request st) true (Some rx)) (FReject resp))
+     /\ upstream_queue l1 = upstream_queue l /\ client_queue l1 = client_queue l).
+Proof. exact (conj reject_first_request reject_later_request). Qed.
+Print Assumptions C09_reject_exact_hcr.
 
 (* Lifecycle, over every history (any steps, ended by anything): if the first request completed,
    every plugin's on_upstream_connection_close runs exactly once in configured order, the
    on_access_log chain runs exactly once (a prefix of the plugins, the default log line at most once
    and only after all plugins were asked), the client socket is closed once; otherwise no callback
-   runs.  Premises: lifecycle hooks do not raise and keep the keys the default log line formats; the
+   runs; the callbacks precede conn.shutdown(SHUT_WR) on the client socket, whose outcome (ENOTCONN after a
+   peer reset, any OSError) therefore cannot affect them.  Premises: lifecycle hooks do not raise and keep the keys the default log line formats; the
    executor calls shutdown() exactly once (C05/C10). *)
 Theorem C09_lifecycle_once : forall cf ps c0 steps,
   lifecycle_total ps -> keeps_keys ps -> (forall t, ctx_ok t c0) ->
